@@ -41,7 +41,8 @@ DERIVED = {
     "Assembly": {"assemNum": "identity: the name derives from it"},
     "Block": {"height": "changed through setHeight (the assembly mesh and z coordinates follow it)", "z": "calculateZCoords", "zbottom": "calculateZCoords", "ztop": "calculateZCoords",
               "assemNum": "identity", "kgHM": "setBlockMassParams", "kgFis": "setBlockMassParams", "puFrac": "setBlockMassParams"},
-    "Component": {"volume": "recomputed from dimensions", "area": "recomputed for derived shapes"},
+    "Component": {"temperatureInC": "changed through setTemperature (dimensions and densities follow it)",
+                  "volume": "recomputed from dimensions", "area": "recomputed for derived shapes"},
     "*": {"serialNum": "identity", "flags": "derived from the name; not saved"},
 }
 
@@ -175,6 +176,13 @@ def grid_rep(g):
         except Exception as e:  # noqa: BLE001
             coords.append("EXC:" + type(e).__name__)
     rep["probeCoords"] = tuple(coords)
+    glob = []
+    for ijk in PROBES[:4]:
+        try:
+            glob.append(num(g[ijk].getGlobalCoordinates()))
+        except Exception as e:  # noqa: BLE001
+            glob.append("EXC:" + type(e).__name__)
+    rep["probeGlobalCoords"] = tuple(glob)
     return rep
 
 
@@ -417,6 +425,8 @@ def mutate(rng, o, r, nobj, ops):
             try:
                 c.p[p.name] = val
             except Exception:  # noqa: BLE001 - the setter refuses the value: not a reachable state
+                with contextlib.suppress(Exception):
+                    c.p[p.name] = cur     # some setters store the value before refusing it (xsTypeNum): put the old one back
                 continue
             ops.append(["setparam", i, p.name, val.tolist() if isinstance(val, np.ndarray) else val])
     # API edits that keep derived parameters consistent
@@ -449,6 +459,15 @@ def mutate(rng, o, r, nobj, ops):
                 ops.append(["setHeight", i, k, h])
             except Exception:  # noqa: BLE001
                 pass
+    # rotation of a hex assembly by a multiple of 60 degrees (orientation, pin locations and boundary parameters move)
+    if assems and type(r.core.spatialGrid).__name__ == "HexGrid" and rng.random() < 0.5:
+        i, a = rng.choice(assems)
+        k = rng.choice([1, 2, 3, 5])
+        try:
+            a.rotate(math.radians(60 * k))
+            ops.append(["rotate", i, k])
+        except Exception:  # noqa: BLE001
+            pass
     # free coordinates with fractional parts on objects whose parent has no grid (core / spent fuel pool)
     for i, c in enumerate(objs):
         if c.parent is r and isinstance(c.spatialLocator, grids.CoordinateLocation) and rng.random() < 0.7:
@@ -460,7 +479,7 @@ def mutate(rng, o, r, nobj, ops):
             ops.append(["setCoordinateLocation", i, xyz])
 
 
-def apply_ops(r, ops):
+def apply_ops(r, ops, o=None):
     """replay of recorded edits on a fresh fixture"""
     from armi.reactor import grids
 
@@ -480,6 +499,11 @@ def apply_ops(r, ops):
             a.calculateZCoords()
         elif kind == "setCoordinateLocation":
             objs[op[1]].spatialLocator = grids.CoordinateLocation(op[2][0], op[2][1], op[2][2], None)
+        elif kind == "rotate":
+            objs[op[1]].rotate(math.radians(60 * op[2]))
+        elif kind == "fullCore":
+            from armi.reactor.converters import geometryConverters
+            geometryConverters.ThirdCoreHexToFullCoreChanger(o.cs).convert(r)
         elif kind == "coordinateInGriddedBlock":
             b = objs[op[1]]
             c = [x for x in b][op[2]]
@@ -561,7 +585,13 @@ def _load_and_dump(ctx, fixture, o, r, fn, ops, stage):
 def roundtrip_checks(ctx, fixture, o, r, ops, tag, excluded=None, deep=True):
     """write -> load -> compare; load twice; save the loaded reactor and load again"""
     fn = f"{fixture}-{tag}.h5"
-    d0 = dump(r)
+    try:
+        d0 = dump(r)
+    except Exception as e:  # noqa: BLE001 - the EDITED original cannot even be queried: not a valid state to save
+        raise WriteRejected("original state invalid: " + type(e).__name__) from e
+    if any(isinstance(v.get("volume"), float) and v["volume"] < 0 for v in d0.values()):
+        # the edits (temperatures) pushed a component through its neighbour: armi itself refuses such models
+        raise WriteRejected("original state invalid: negative component volume")
     write_db(o, r, fn)
     r2, d1 = _load_and_dump(ctx, fixture, o, r, fn, ops, "write-load " + tag)
     diffs = compare(d0, d1, "saved vs loaded")
@@ -788,10 +818,18 @@ def run(ctx):
                 o, r = load_fixture(fixture)
             ops = []
             for rd in range(rounds + 1):
+                if rd == 0 and not ctx.thorough and nobj > 100:
+                    continue        # quick tier: the large inputs are checked in their edited state only
                 if rd > 0:
                     with silence():
-                        mutate(rng, o, r, nobj, ops)
-                        refresh_derived(r)
+                        try:
+                            mutate(rng, o, r, nobj, ops)
+                            refresh_derived(r)
+                        except Exception as e:  # noqa: BLE001 - the edits themselves left an inconsistent model
+                            ctx.count(f"{fixture}: edited state invalid before saving ({type(e).__name__})")
+                            o, r = load_fixture(fixture)
+                            ops = []
+                            continue
                 with silence():
                     try:
                         fn, r2, nd = roundtrip_checks(ctx, fixture, o, r, list(ops), f"r{rd}", deep=(rd == rounds or (rd == 0 and nobj <= 60)))
@@ -812,6 +850,19 @@ def run(ctx):
                 ctx.case((fixture, rd, len(ops)), nontrivial=True)
                 ctx.count(f"{fixture}: round trips")
                 ctx.count("edits applied: " + fixture, len(ops))
+        if ctx.thorough:
+            with silence(), contextlib.suppress(LoadFailed, WriteRejected):
+                from armi.reactor.converters import geometryConverters
+                o, r = load_fixture("reference")
+                ops = []
+                mutate(rng, o, r, 150, ops)
+                geometryConverters.ThirdCoreHexToFullCoreChanger(o.cs).convert(r)
+                ops.append(["fullCore"])
+                refresh_derived(r)
+                fn, r2, nd = roundtrip_checks(ctx, "reference", o, r, ops, "fullcore", deep=True)
+                layout_correspondence(ctx, "reference", r, fn, r2, req, impl, cases)
+                ctx.case(("reference", "fullcore", len(ops)), nontrivial=True)
+                ctx.count("reference: third-core -> full-core conversion round trip")
         excluded_points(ctx, req, impl, cases)
     for op in set(c["op"] for c in cases):
         ctx.count("model requests: " + op, sum(1 for c in cases if c["op"] == op))
@@ -868,7 +919,7 @@ def replay(ctx, payload):
     with common.scratch_dir(), silence():
         o, r = load_fixture(fx)
         ops = [op if op[0] != "swapAssemblies" else [op[0], op[1], op[2], o] for op in case.get("ops", [])]
-        apply_ops(r, ops)
+        apply_ops(r, ops, o)
         refresh_derived(r)
         with contextlib.suppress(LoadFailed, WriteRejected):
             roundtrip_checks(sub, fx, o, r, case.get("ops", []), "replay", deep=True)
